@@ -174,3 +174,55 @@ def programs(draw, kind=None):
     else:
         sc = draw(random_programs())
     return k, sc
+
+
+@st.composite
+def deadlock_free_programs(draw, max_actors=3, max_blocks=3):
+    """Programs that cannot deadlock by construction (C40 needs complete executions only): critical sections taken in increasing
+    mutex order, try_lock + conditional unlock, semaphore acquire/release pairs on a semaphore of capacity >= 1, one
+    producer / one consumer per mailbox with communications outside every critical section, one barrier crossed by everybody as
+    last operation."""
+    nact = draw(st.sampled_from([3, 2, 3, 2] if max_actors >= 3 else [2]))
+    budget = draw(st.integers(nact, 4 if max_blocks <= 3 else 6))      # blocks in the whole program: the number of paths explodes
+    nmut = draw(st.sampled_from([1, 1, 1, 2]))
+    objects = {"mutex": [{"recursive": draw(st.integers(0, 3)) == 0} for _ in range(nmut)], "sem": [draw(st.integers(1, 2))]}
+    use_mb = draw(st.booleans())
+    use_bar = draw(st.integers(0, 3)) == 0
+    if use_mb:
+        objects["mailbox"] = 1
+    if use_bar:
+        objects["barrier"] = [nact]
+    ops = [[] for _ in range(nact)]
+    ntry = [0] * nact
+    nmsg = draw(st.integers(1, 2)) if use_mb else 0
+    prod, cons = (draw(st.integers(0, nact - 1)), None) if use_mb else (None, None)
+    if use_mb:
+        cons = draw(st.sampled_from([a for a in range(nact) if a != prod]))
+    for a in range(nact):
+        todo_msgs = nmsg if a in (prod, cons) else 0
+        nb = max(1, min(max_blocks, budget // nact + (1 if a < budget % nact else 0)))
+        for _ in range(nb):
+            k = draw(st.sampled_from(["try", "cs", "try", "sem", "cs", "sem", "try", "nested", "msg"]))
+            if k == "cs":
+                m = draw(st.integers(0, nmut - 1))
+                ops[a] += [["lock", m]] + ([["sleep", 0.25]] if draw(st.booleans()) else []) + [["unlock", m]]
+            elif k == "nested" and nmut == 2:
+                ops[a] += [["lock", 0], ["lock", 1], ["unlock", 1], ["unlock", 0]]
+            elif k == "nested":
+                ops[a] += [["lock", 0], ["acquire", 0], ["release", 0], ["unlock", 0]]
+            elif k == "try":
+                m = draw(st.integers(0, nmut - 1))
+                ops[a] += [["try_lock", m], ["unlock_if", m, ntry[a]]]
+                ntry[a] += 1
+            elif k == "sem":
+                ops[a] += [["acquire", 0], ["release", 0]]
+            elif k == "msg" and todo_msgs:
+                ops[a].append(["put", 0, 0, {}] if a == prod else ["get", 0, {}])
+                todo_msgs -= 1
+            else:
+                ops[a].append(["sleep", draw(st.sampled_from([0.25, 0.5]))])
+        for _ in range(todo_msgs):
+            ops[a].append(["put", 0, 0, {}] if a == prod else ["get", 0, {}])
+        if use_bar:
+            ops[a].append(["barrier", 0])
+    return _scenario(objects, ops)
